@@ -932,3 +932,379 @@ def stateful_consumer_correspondence(chk, n):
         if mo != real:
             chk.disagreement("stateful-consumer:stateful.execute", gets, mo, real)
         yield gets, real
+
+
+# ---------------------------------------------------------------------------------------------------------------
+# G. the instrumented state machine: the real `_InstrumentedStateMachine` (setup / step / validate_response /
+#    teardown), `StatefulContext`, `ExecutionControl` and every arm of `execute_state_machine_loop`, driven by a
+#    scripted stand-in for Hypothesis, against SV/Model/StatefulMachine.lean (driver ops sm_ops / sm_thread)
+# ---------------------------------------------------------------------------------------------------------------
+
+class _Boom(BaseException):
+    """a BaseException that is neither KeyboardInterrupt nor an Exception"""
+
+
+N_SM_CHECKS = 3
+
+
+class MachineRig:
+    def __init__(self, max_failures=None, unique=False, max_examples=100):
+        from schemathesis.core.failures import Failure, FailureGroup
+        from schemathesis.core.transport import Response
+        self.Failure, self.FailureGroup = Failure, FailureGroup
+        self.schema = load_schema("http://127.0.0.1:9", raw=STATEFUL_RAW)
+        self.op = self.schema["/users/{id}"]["GET"]
+        self.cur = None            # the step being executed
+        self.calls = 0
+        self.machines = []         # every constructed machine, in order
+        self.q: queue.Queue = queue.Queue()
+        rig = self
+
+        def mk_check(i):
+            def chk(ctx, response, case):
+                outs = rig.cur["call"]
+                o = outs[i] if i < len(outs) else "pass"
+                if o == "pass":
+                    return None
+                if o == "crash":
+                    raise RuntimeError("check crashed")
+                fs = [rig.failure(f) for f in o]
+                if len(fs) == 1:
+                    raise fs[0]
+                raise FailureGroup(fs)
+            chk.__name__ = f"chk{i}"
+            return chk
+
+        self.engine = make_ctx(self.schema, max_failures, unique_inputs=unique, checks=[mk_check(i) for i in range(N_SM_CHECKS)],
+                               hypothesis_settings=hypothesis.settings(max_examples=max_examples, database=None, deadline=None))
+        req = requests.Request("GET", "http://127.0.0.1:9/users/1").prepare()
+
+        class Scripted(self.schema.as_state_machine()):
+            def call(self, case, **kwargs):
+                rig.calls += 1
+                c = rig.cur["call"]
+                if c == "raises":
+                    raise RuntimeError("transport")
+                if c == "interrupted":
+                    raise KeyboardInterrupt
+                if c == "baseExc":
+                    raise _Boom()
+                return Response(status_code=200, headers={}, content=b"{}", request=req, elapsed=0.1, verify=False)
+
+            @classmethod
+            def run(cls, *, settings=None):
+                return rig.on_run(cls)
+
+        self.Scripted = Scripted
+        self._cases = {}
+        self.on_run = None
+        self.sctx = None
+
+    def failure(self, f):
+        return self.Failure(operation=self.op.label, title="t", message=f"k{f}")
+
+    def case(self, key):
+        # one Case object per key and use: hash(case) is the hash of its curl command, so equal keys collide as intended
+        return self.op.Case(path_parameters={"id": key})
+
+    def grab(self, cls):
+        fn = cls.__dict__["teardown"]
+        self.sctx = dict(zip(fn.__code__.co_freevars, fn.__closure__))["ctx"].cell_contents
+
+    def construct(self, cls, fails=False):
+        if fails:
+            with mock.patch.object(type(self.engine), "get_check_context", side_effect=RuntimeError("no check context")):
+                cls()
+        m = cls()
+        self.machines.append(m)
+        return m
+
+    def do_step(self, machine, st):
+        """one rule invocation as `transition.step_function` performs it; returns the canonical step result"""
+        from schemathesis.generation.stateful.state_machine import StepInput
+        if st.get("stopBefore"):
+            self.engine.stop()
+        self.cur = st
+        case = self.case(st["case"])
+        machine.recorder.record_case(parent_id=None, transition=None, case=case)
+        try:
+            r = machine.step(StepInput.initial(case))
+            return ("returnedNone" if r is None else "returned"), None
+        except self.FailureGroup as exc:
+            return sorted(int(f.message[1:]) for f in exc.exceptions), exc
+        except KeyboardInterrupt as exc:
+            return "ki", exc
+        except Exception as exc:
+            return "exception", exc
+        except BaseException as exc:
+            return "baseExc", exc
+
+    def state(self):
+        s, c = self.sctx, self.engine.control
+        keyof = {hash(self.case(k)): k for k in range(8)}
+
+        def kind(o):
+            if o is None:
+                return "none"
+            if isinstance(o, self.Failure):
+                return "failure"
+            return "exception" if isinstance(o, Exception) else "baseExc"
+        evs = []
+        while not self.q.empty():
+            evs.append(self.q.get_nowait())
+        self._evs = getattr(self, "_evs", []) + evs
+        rec = []
+        for i, m in enumerate(self.machines):
+            for nodes in m.recorder.checks.values():
+                for n in nodes:
+                    if n.failure_info is not None:
+                        rec.append([i + 1, int(n.failure_info.failure.message[1:])])
+        return {"ctl": {"stop": c.is_interrupted, "failures": c._failures_counter, "limit": c.has_reached_the_failure_limit},
+                "seenRun": sorted(int(f.message[1:]) for f in s.seen_in_run),
+                "seenSuite": sorted(int(f.message[1:]) for f in s.seen_in_suite),
+                "stepStatus": None if s.current_step_status is None else STATUS[s.current_step_status],
+                "completed": s.completed_scenarios,
+                "outcomes": sorted([keyof.get(h, -1), kind(o)] for h, o in s.step_outcomes.items()),
+                "out": canon_stateful(self._evs), "recorded": sorted(rec), "calls": self.calls}
+
+
+def canon_model_state(m):
+    """model state -> the shape MachineRig.state() produces"""
+    seen, outs = set(), []
+    for c, o in m["outcomes"]:
+        if c not in seen:
+            seen.add(c)
+            outs.append([c, o])
+    ren, out = {}, []
+    for e in m["out"]:
+        if "id" in e:
+            ren.setdefault(e["id"], len(ren) + 1)
+            e = {**e, "id": ren[e["id"]]}
+        out.append(e)
+    # the model numbers scenarios by id; the rig numbers *machines* (a failed setup constructs none): same numbering
+    rec = sorted([ren.get(i, i), f] for i, f in m["recorded"])
+    return {"ctl": m["ctl"], "seenRun": sorted(set(m["seenRun"])), "seenSuite": sorted(set(m["seenSuite"])), "stepStatus": m["stepStatus"],
+            "completed": m["completed"], "outcomes": sorted(outs), "out": out, "recorded": rec, "calls": m["calls"]}
+
+
+@contextmanager
+def _build_context():
+    from hypothesis.control import BuildContext
+    from hypothesis.internal.conjecture.data import ConjectureData
+    with BuildContext(ConjectureData.for_choices([]), is_final=False, wrapped_test=lambda: None):
+        yield
+
+
+def drive_machine_ops(ops, max_failures=None, unique=False):
+    """arbitrary sequences of setup / step / teardown on the real instrumented machine (one suite)"""
+    from schemathesis.engine.phases.stateful._executor import execute_state_machine_loop
+    rig = MachineRig(max_failures, unique)
+    res = {}
+
+    def on_run(cls):
+        rig.grab(cls)
+        machine, results = None, []
+        with _build_context():
+            for op in ops:
+                if op["op"] == "setup":
+                    try:
+                        machine = rig.construct(cls, op.get("fails", False))
+                        results.append(True)
+                    except RuntimeError:
+                        results.append(False)
+                elif op["op"] == "step":
+                    results.append(rig.do_step(machine, op)[0])
+                else:
+                    machine.teardown()
+                    results.append(None)
+        res["results"], res["state"] = results, rig.state()
+
+    rig.on_run = on_run
+    execute_state_machine_loop(state_machine=rig.Scripted, event_queue=rig.q, engine=rig.engine)
+    st = res["state"]
+    st["out"] = [e for e in st["out"] if e["k"] != "suiteStarted"]
+    return res["results"], st
+
+
+def gen_sm_call(rng, keys=(1, 2, 3)):
+    r = rng.random()
+    if r < 0.08:
+        return "raises"
+    if r < 0.11:
+        return "interrupted"
+    if r < 0.14:
+        return "baseExc"
+    checks = []
+    for _ in range(rng.randint(0, N_SM_CHECKS)):
+        x = rng.random()
+        if x < 0.55:
+            checks.append("pass")
+        elif x < 0.62:
+            checks.append("crash")
+        else:
+            checks.append([rng.choice(keys) for _ in range(rng.choice([1, 1, 1, 2, 3]))])
+    return checks
+
+
+def gen_sm_ops(rng):
+    """mostly Hypothesis-shaped (setup, steps, teardown), sometimes not (steps after a raising step, a machine abandoned
+    without teardown); never an operation on a machine that was not constructed or was already torn down"""
+    ops = []
+    for _ in range(rng.randint(1, 4)):
+        fails = rng.random() < 0.1
+        ops.append({"op": "setup", "fails": fails})
+        if fails:
+            continue
+        for _ in range(rng.randint(0, 4)):
+            ops.append({"op": "step", "case": rng.choice([1, 1, 2, 3]), "stopBefore": rng.random() < 0.04, "call": gen_sm_call(rng)})
+        if rng.random() < 0.9:
+            ops.append({"op": "teardown"})
+    return ops
+
+
+def machine_ops_correspondence(chk, n):
+    from harness.core import Driver
+    drv = Driver("Engine")
+    rng = chk.rng
+    runs, reqs = [], []
+    for _ in range(n):
+        ops = gen_sm_ops(rng)
+        mf = rng.choice([None, None, 1, 2, 3])
+        unique = rng.random() < 0.5
+        results, state = drive_machine_ops(ops, mf, unique)
+        runs.append((ops, mf, unique, results, state))
+        reqs.append(("sm_ops", {"ops": ops, "maxFailures": mf, "unique": unique}))
+    for (ops, mf, unique, results, state), m in zip(runs, drv.batch(reqs)):
+        inp = {"ops": ops, "maxFailures": mf, "unique": unique}
+        mres = [sorted(r) if isinstance(r, list) else r for r in m["results"]]
+        mstate = canon_model_state(m["state"])
+        chk.case("stateful-machine:_InstrumentedStateMachine", key=inp, sample={"ops": ops, "results": results})
+        for r in results:
+            chk.feature("sm-step:" + ("failureGroup" if isinstance(r, list) else str(r)))
+        if mres != results or mstate != state:
+            chk.disagreement("stateful-machine:_InstrumentedStateMachine", inp, {"results": mres, "state": mstate},
+                             {"results": results, "state": state})
+        yield inp, results, state
+
+
+def drive_machine_thread(runs, max_failures=None, unique=False, max_examples=100):
+    """the real loop with Hypothesis replaced by a script: per iteration the scenarios it runs and how `run` ends.
+    Returns (final state, number of iterations the loop began)."""
+    import unittest
+    import hypothesis.errors
+    from schemathesis.engine.phases.stateful import _executor as st_exec
+    rig = MachineRig(max_failures, unique, max_examples)
+    script = list(runs)
+    it = [0]          # iterations begun (= SuiteStarted events built)
+
+    class OutOfScript(Exception):
+        pass
+
+    real_suite_started = events.SuiteStarted
+
+    def suite_started(*a, **k):
+        # the first thing an iteration does: the place where "the stop event is set before the is_interrupted test" goes
+        r = script[it[0]] if it[0] < len(script) else None
+        it[0] += 1
+        if r is not None and r.get("stopBeforeSuite"):
+            rig.engine.stop()
+        return real_suite_started(*a, **k)
+
+    def on_run(cls):
+        rig.grab(cls)
+        if it[0] > len(script):
+            raise OutOfScript()        # the loop wants another iteration: the script is exhausted
+        r = script[it[0] - 1]
+        with _build_context():
+            for sc in r["scens"]:
+                try:
+                    machine = rig.construct(cls, sc.get("setupFails", False))
+                except RuntimeError:
+                    continue
+                try:
+                    for st in sc["steps"]:
+                        res, exc = rig.do_step(machine, st)
+                        if res in ("ki", "baseExc"):
+                            raise exc
+                        if exc is not None:
+                            break
+                finally:
+                    machine.teardown()
+        h = r["hyp"]
+        if h == "skipTest":
+            raise unittest.SkipTest("no examples")
+        if isinstance(h, list):
+            raise rig.FailureGroup([rig.failure(f) for f in h])
+        if h == "flaky":
+            raise hypothesis.errors.Flaky("flaky")
+        if h == "unsatisfiable":
+            raise hypothesis.errors.Unsatisfiable("unsat")
+        if h == "otherException":
+            raise RuntimeError("internal")
+
+    rig.on_run = on_run
+    try:
+        with mock.patch.object(st_exec.events, "SuiteStarted", suite_started):
+            st_exec.execute_state_machine_loop(state_machine=rig.Scripted, event_queue=rig.q, engine=rig.engine)
+    except _Boom:
+        pass
+    if rig.sctx is None:
+        # interrupted before the first run: no machine class was ever handed out; the context is untouched
+        return None, it[0]
+    return rig.state(), it[0]
+
+
+def gen_sm_runs(rng):
+    runs = []
+    for i in range(rng.randint(1, 4)):
+        scens = []
+        for _ in range(rng.randint(0, 3)):
+            scens.append({"setupFails": rng.random() < 0.06,
+                          "steps": [{"case": rng.choice([1, 1, 2, 3]), "stopBefore": rng.random() < 0.03, "call": gen_sm_call(rng, (1, 2, 3, 4))}
+                                    for _ in range(rng.randint(0, 3))]})
+        x = rng.random()
+        hyp = ("ok" if x < 0.15 else "skipTest" if x < 0.2 else "flaky" if x < 0.5 else "unsatisfiable" if x < 0.6
+               else "otherException" if x < 0.68 else [rng.choice([1, 2, 3, 4]) for _ in range(rng.randint(1, 2))])
+        runs.append({"scens": scens, "hyp": hyp, "stopBeforeSuite": rng.random() < 0.05})
+    return runs
+
+
+def detect_flaky_variant():
+    """which `except Flaky` arm does the tree have?  Witness: a run that ends Flaky without any check failure."""
+    runs = [{"scens": [{"steps": [{"case": 1, "call": "raises"}]}, {"steps": [{"case": 1, "call": []}]}], "hyp": "flaky"},
+            {"scens": [], "hyp": "ok"}]
+    _, n = drive_machine_thread(runs)
+    return "asFound" if n == 2 else "repaired"
+
+
+def machine_thread_correspondence(chk, n):
+    from harness.core import Driver
+    drv = Driver("Engine")
+    rng = chk.rng
+    variant = detect_flaky_variant()
+    chk.notes.append(f"execute_state_machine_loop `except Flaky` arm: variant {variant} (detected by witness)")
+    runs_, reqs = [], []
+    for _ in range(n):
+        runs = gen_sm_runs(rng)
+        mf = rng.choice([None, None, 1, 2])
+        unique = rng.random() < 0.3
+        mx = rng.choice([1, 2, 3, 100])
+        # the loop may want more iterations than scripted: give it a closing one
+        full = runs + [{"scens": [], "hyp": "ok", "stopBeforeSuite": False}] * 8
+        state, used = drive_machine_thread(full, mf, unique, mx)
+        runs_.append((full, mf, unique, mx, state, used))
+        reqs.append(("sm_thread", {"variant": variant, "runs": full, "maxFailures": mf, "unique": unique, "maxExamples": mx}))
+    for (runs, mf, unique, mx, state, used), m in zip(runs_, drv.batch(reqs)):
+        inp = {"runs": runs[:used + 1], "maxFailures": mf, "unique": unique, "maxExamples": mx}
+        chk.case("stateful-machine:execute_state_machine_loop+machine", key=inp, sample={"input": inp, "suites": used})
+        for r in runs[:max(used, 1)]:
+            chk.feature("sm-hyp:" + ("failureGroup" if isinstance(r["hyp"], list) else r["hyp"]))
+        if state is None:
+            # stop before the first suite: compare the events only (drained below)
+            continue
+        mstate = canon_model_state(m["state"])
+        n_suites = sum(1 for e in state["out"] if e["k"] == "suiteStarted")
+        if mstate != state or m["suites"] != n_suites:
+            chk.disagreement("stateful-machine:execute_state_machine_loop+machine", inp,
+                             {"state": mstate, "suites": m["suites"]}, {"state": state, "suites": n_suites})
+        yield inp, state, used
